@@ -455,6 +455,10 @@ class LocalConcurrences:
                                   0, len(self.series2) + 1, False)
         else:
             wp = self._wp
+            # Cells used by earlier matches have been negated, make them available again
+            data = ma.getdata(wp)
+            used = np.isfinite(data) & (data < 0)
+            data[used] = -data[used]
             if self.window is None:
                 wp.mask = False
             else:
